@@ -30,7 +30,13 @@ CLAUSE → THEOREM TABLE (review R1; property text in properties.jsonl, id C07)
        predictor"   `project_lambda_guarantee` (ANY ratio, both parts), from `project_lambda_sound` (ratio 1) and
         `project_lambda_identity` (ratio ≠ 1: the code returns λ unchanged), `project_lambda_flat`,
         `gamma_minus_eq_neg_plus`.  Hypotheses λ ≥ 0 and slack ≥ 0 are NEEDED: `project_lambda_needs_nonneg_slack`
-        (a negative `difference_bound` is accepted by the constructor; replayed on fairlearn: L drops from 2 to 0).
+        (replayed on fairlearn: L drops from 2 to 0; since fairlearn c80f72a the constructor rejects a negative slack —
+        lifted into `mkConfig` — so `accepted_config_slack_nonneg` discharges the slack hypothesis for every object that
+        can exist: `project_lambda_guarantee_of_config`).
+        TIE: `projectLambda` is computed with the guard and the entry formulas LIFTED from `UtilityParity.project_lambda`
+        (`Generated/ProjectLambdaSrc.lean`, lifter `projlambda.py`: symbolic execution of the method body, so the order
+        "negate, then clip in place" is part of the lifted text); `project_lambda_lifted` (through
+        `Lemmas/Moments.lean:src_posOf_clip0/src_negOf_clip0/src_projects_iff`) is where a source edit breaks.
 -/
 import FairModel.Lemmas.MomentsReduction
 import FairModel.Lemmas.Oracle
